@@ -63,7 +63,7 @@ def step (f : Form) (ws : List String) : Form × String :=
     match JVal.ofWire toks with
     | some v => (.tree v, "doc " ++ dumpForm (.tree v))
     | none => (.none, "doc bad")
-  | [op@"fromnode"] | [op@"fill"] =>
+  | [op@"fromnode"] | [op@"fill"] | [op@"fillclone"] =>
     match f with
     | .tree v =>
       if op == "fromnode" && !isContainer v then (f, "fromnode invalid-args")
